@@ -55,7 +55,7 @@ void dtw_expand_wps_slice{{suffix}}(seq_t *wps, seq_t *full,
     if (rb == 0) {
         wpsi = 1 + cbs;
         for (ci=cbs; ci<MIN3(ces, p.width - 1, l2); ci++) {
-            full[wpsi-cbs] = wps[wpsi];
+            full[ci + 1 - cb] = wps[wpsi];
             wpsi++;
         }
     }
@@ -66,8 +66,8 @@ void dtw_expand_wps_slice{{suffix}}(seq_t *wps, seq_t *full,
         max_ci = p.window + p.ldiffc; // ri < overlap_right_i
         max_ci += rbs;
         for (ri=rbs; ri<MIN(res, p.ri1); ri++) {
-            if (cbs == 0) {
-                full[fwidth*(ri + 1)] = wps[p.width*(ri + 1)];
+            if (cb == 0) {
+                full[fwidth*(ri + 1 - rb)] = wps[p.width*(ri + 1)];
             }
             if (cbs <= min_ci) {
                 wpsi = 1;
@@ -83,12 +83,12 @@ void dtw_expand_wps_slice{{suffix}}(seq_t *wps, seq_t *full,
     }
 
     // B. Rows: min(overlap_left_ri, overlap_right_ri) <= ri < overlap_left_ri
-    min_ci = cbs;
+    min_ci = 0;
     max_ci = MIN(ces, l2); // ri >= overlap_right_i
     if (rbs < p.ri2) {
         for (ri=MAX(rbs, p.ri1); ri<MIN(res, p.ri2); ri++) {
-            if (cbs == 0) {
-                full[fwidth*(ri + 1)] = wps[p.width*(ri + 1)];
+            if (cb == 0) {
+                full[fwidth*(ri + 1 - rb)] = wps[p.width*(ri + 1)];
             }
             if (cbs <= min_ci) {
                 wpsi = 1;
@@ -106,13 +106,13 @@ void dtw_expand_wps_slice{{suffix}}(seq_t *wps, seq_t *full,
     min_ci = 1;
     max_ci = 1 + 2 * p.window - 1 + p.ldiff;
     if (rbs < p.ri3) {
-        // if (rbs > p.ri2) {
-        //     min_ci += rbs - p.ri2;
-        //     max_ci += rbs - p.ri2;
-        // }
+        if (rbs > p.ri2) {
+            min_ci += rbs - p.ri2;
+            max_ci += rbs - p.ri2;
+        }
         for (ri=MAX(rbs, p.ri2); ri<MIN(res, p.ri3); ri++) {
-            if (cbs == 0) {
-                full[(ri+1)*fwidth + min_ci] = wps[(ri+1)*p.width + 0];
+            if (cb <= min_ci && min_ci < ce) {
+                full[(ri+1-rb)*fwidth + min_ci - cb] = wps[(ri+1)*p.width + 0];
             }
             if (cbs <= min_ci) {
                 wpsi = 1;
@@ -137,10 +137,10 @@ void dtw_expand_wps_slice{{suffix}}(seq_t *wps, seq_t *full,
     } else {
         min_ci = 1 + p.ri3 - p.ri2;
     }
-    // if (rbs > p.ri3) {
-    //     min_ci += rbs - p.ri3;
-    //     wpsi_start += rbs - p.ri3;
-    // }
+    if (rbs > p.ri3) {
+        min_ci += rbs - p.ri3;
+        wpsi_start += rbs - p.ri3;
+    }
     for (ri=MAX(rbs, p.ri3); ri<MIN(res, l1); ri++) {
         if (cbs <= min_ci) {
             wpsi = wpsi_start;
